@@ -41,6 +41,8 @@ ALSO = {
     "C06-gb18030-lead-0x81-single": ["C14"], "C16-parseoptions-end-u16-sum": ["C03"], "C04-blocked-prefill-body-vs-total": [], "C02-cmpp20-submit-length-tail-u8": ["C01", "C11"],
     "C14-boundary-rule-picked-before-fallback": ["C06"], "C03-cmpp20-dest-bulk-read-u8": ["C01"], "C11-tlv-buffer-clamped-to-remaining": ["C16", "C03"],
     "C12-reader-stages-in-pooled-buffer": ["C13", "C20"],
+    "C20-fixed-pad-256-helper": ["C01"], "C19-truncate-before-sign-check": [], "C08-encoder-keeps-septets-after-short-dst": ["C05"], "C09-origin-dropped-same-wire-value": [],
+    "C13-writer-abort-double-release": ["C12"], "C01-tlvs-bytes-u16-accumulator": ["C16"],
     "C12-reader-scratch-view": ["C13"], "C13-shared-sorter": ["C09"], "C07-total-from-size": ["C06"], "C03-cmpp20-dest-block-u8": ["C01"],
 }
 
